@@ -2,6 +2,7 @@ package props
 
 import (
 	"fmt"
+	"sort"
 
 	"github.com/Azbesciak/RealDecisionMaker/lib/logic/preference-func/electreIII"
 	"github.com/Azbesciak/RealDecisionMaker/lib/model"
@@ -300,9 +301,67 @@ func eleNearCut(s *Shard, prop string, fn func(c *Case, cfg eleCfg)) {
 	}
 }
 
+// eleLayered: 5..15 alternatives in layers — `above` single alternatives, then a class of `twins` identical alternatives, then
+// `below` alternatives (each a layer of its own, or all of them one more class of identical alternatives), on two criteria
+// without thresholds; listed in a scrambled order.
+func eleLayered(s *Shard, prop string, visit func(c *Case)) {
+	for above := 0; above <= 2; above++ {
+		for twins := 2; twins <= 3; twins++ {
+			for below := 1; below <= 10; below++ {
+				for _, flat := range []bool{false, true} {
+					if !s.Take() {
+						continue
+					}
+					n := above + twins + below
+					mul := 7
+					for n%mul == 0 {
+						mul += 4 // 7, 11: one of them is coprime to every n <= 15
+					}
+					var ids []string
+					var vals [][]float64
+					level := float64(n + 2)
+					add := func(k int, same bool) {
+						for i := 0; i < k; i++ {
+							ids = append(ids, fmt.Sprintf("l%02d", (len(ids)*mul)%n))
+							vals = append(vals, []float64{level, level * 2})
+							if !same {
+								level--
+							}
+						}
+						if same {
+							level--
+						}
+					}
+					add(above, false)
+					add(twins, true)
+					add(below, flat)
+					// scrambled listing: ids were dealt out as (i*mul) mod n, list them in ascending id order
+					order := make([]int, n)
+					for i := range order {
+						order[i] = i
+					}
+					sort.Slice(order, func(a, b int) bool { return ids[order[a]] < ids[order[b]] })
+					li := make([]string, n)
+					lv := make([][]float64, n)
+					for i, o := range order {
+						li[i], lv[i] = ids[o], vals[o]
+					}
+					req := genericRequest("electreIII", []string{"c1", "c2"}, -1, li, lv, li, []float64{1, 2})
+					visit(&Case{Prop: prop, Kind: "electre", Req: req, Params: M{"layers": []int{above, twins, below}, "flat": flat}})
+				}
+			}
+		}
+	}
+}
+
 func c05Run(s *Shard) {
 	cur = s
 	sampled := 0
+	eleLayered(s, "C05", func(c *Case) {
+		s.Evals++
+		s.Begin(c)
+		s.Report(c05Check(c))
+	})
 	// requests with more alternatives than a machine word has bits (63..130), against the reference implementation
 	for _, n := range []int{63, 65, 67, 130} {
 		for shape := 0; shape < 3; shape++ {
@@ -448,6 +507,7 @@ func c05PairFamily(s *Shard) {
 
 func init() {
 	c01Extra = append(c01Extra, func(s *Shard, run func(c *Case)) {
+		eleLayered(s, "C01", run)
 		eleEnumerate(s, "C01", func(c *Case, cfg eleCfg) {
 			if liteEnum && cfg.N*len(cfg.Types) >= 8 {
 				return
